@@ -133,6 +133,16 @@ func (d *dec) fractalHeap(addr uint64) *fheap {
 	} else if h.nManaged != 0 {
 		d.fail("%s at 0x%x: %d managed objects but the root block address is undefined", what, a, h.nManaged)
 	}
+	var alloc uint64
+	for _, bl := range h.blocks {
+		alloc += bl.size
+	}
+	if alloc != h.manAlloc {
+		d.fail("%s at 0x%x: amount of allocated managed space is %d but the allocated direct blocks add up to %d bytes", what, a, h.manAlloc, alloc)
+	}
+	if h.manAlloc > h.manSize {
+		d.fail("%s at 0x%x: allocated managed space %d exceeds the managed space %d", what, a, h.manAlloc, h.manSize)
+	}
 	return h
 }
 
@@ -329,4 +339,52 @@ func (h *fheap) object(d *dec, id []byte, what string) ([]byte, uint64) {
 		d.fail("%s: heap ID type 3 is reserved", what)
 	}
 	return nil, 0
+}
+
+// trySpec runs fn and returns the spec violation it aborted with, if any.
+func (d *dec) trySpec(fn func()) (err *specError) {
+	defer func() {
+		if r := recover(); r != nil {
+			if e, ok := r.(*specError); ok {
+				err = e
+				return
+			}
+			panic(r)
+		}
+	}()
+	fn()
+	return nil
+}
+
+// withHeapOffsetFallback runs fn, which resolves B-tree records through heap fh. When the strict
+// reading fails and the heap consists of one root direct block, fn is repeated reading managed
+// object offsets the way the pinned library writes them (counting from the first payload byte of the
+// block instead of from the start of the block); if every record then decodes and checks out, the
+// named deviation applies. reset must undo fn's partial results.
+func (d *dec) withHeapOffsetFallback(fh *fheap, reset func(), fn func()) {
+	if fh.dataRelative || fh.curRows != 0 || len(fh.blocks) != 1 {
+		fn()
+		return
+	}
+	saved := map[string]int{}
+	for k, v := range d.f.Deviations {
+		saved[k] = v
+	}
+	serr := d.trySpec(fn)
+	if serr == nil {
+		return
+	}
+	for k := range d.f.Deviations {
+		delete(d.f.Deviations, k)
+	}
+	for k, v := range saved {
+		d.f.Deviations[k] = v
+	}
+	reset()
+	fh.dataRelative = true
+	if lerr := d.trySpec(fn); lerr != nil {
+		fh.dataRelative = false
+		panic(serr)
+	}
+	d.deviate("fheap-offsets-exclude-block-header", "fractal heap at 0x%x: the records of its index only resolve when managed object offsets count from the first payload byte of the direct block, not from the start of the block (strict reading: %s)", d.abs(fh.addr), serr.msg)
 }
